@@ -163,8 +163,8 @@ def run(chk):
                 ok = isinstance(got, Vec) and got.add(want, -1).is_zero()
                 chk.ob("C08-R2", "%s%s %s sample = d^%d/dt^%d of segment i's polynomial at the local time" % (cls, inst, nm, d, d), ok, where, "", construct="%s/sample%s/%s" % (cls, inst, nm))
         # ---- R1 / R5 on evaluate -------------------------------------------------------------------------
-        for f in [g for g in F.funcs(cls, "evaluate") if len(g["params"]) == 7]:
-            check_cost_addends(chk, F, cls, f)
+        for k_, f in enumerate([g for g in F.funcs(cls, "evaluate") if len(g["params"]) == 7]):
+            check_cost_addends(chk, F, cls, f, first=(k_ == 0))
         for f in [g for g in F.funcs(cls, "evaluate") if len(g["params"]) == 6]:
             check_forward(chk, F, cls, f)
     void = [g for g in F.functions if g.get("clsname") == "VoidWaypointsCost" and g["name"] == "operator()"]
@@ -179,85 +179,53 @@ def run(chk):
     chk.not_decided = ["values returned by the user functors; rounding"]
 
 
-def check_cost_addends(chk, F, cls, f):
-    chk.saw(f)
+def check_cost_addends(chk, F, cls, f, ctx=None, first=True):
+    """R1 on the algebraic summary of evaluate(): on every path the returned value is time cost + quadrature +
+    waypoint cost (when there is one) + rho * energy (when rho > 0), each functor seeing the decoded quantities."""
+    from .. import evalrules
+    from ..effects import Effects
+    from . import evalctx
     inst = f["full"].split("evaluate")[1][:60]
-    sc = Scope(f)
-    for n in walk(f["body"]):
-        if n.get("k") == "decl" and (n["ty"].get("c") in ("int", "double", "bool") and n.get("init") is not None and n["name"] != "total_cost" or n.get("bind") == "alias"):
-            pass
-    # the cost variable: the local returned at the end
-    rets = [n for n in walk(f["body"]) if n.get("k") == "return"]
-    if len(rets) != 1 or strip_copy(rets[0]["e"]).get("k") != "var":
-        raise Broken("evaluate does not return a single local")
-    cid = strip_copy(rets[0]["e"])["id"]
-    void = "VoidWaypointsCost" in f["full"]
-    decl = next(n for n in walk(f["body"]) if n.get("k") == "decl" and n["id"] == cid)
-    addends = []
-
-    def rec(s, guards):
-        if s is None:
-            return
-        k = s.get("k")
-        if k == "block":
-            for x in s["body"]:
-                rec(x, guards)
-        elif k == "if":
-            if s.get("constexpr") and s.get("taken"):
-                rec(s["then"] if s["taken"] == "then" else s.get("else"), guards)
-            else:
-                rec(s["then"], guards + [canon(s["cond"], sc)])
-                rec(s.get("else"), guards + ["!" + canon(s["cond"], sc)])
-        elif k == "decl":
-            if s["ty"].get("c") in ("double", "int") and s.get("init") is not None and s["id"] != cid:
-                sc.bind_local(s)
-            elif s.get("bind") == "alias":
-                sc.bind_opaque(s["id"], "WS")
-        elif k == "expr":
-            e = s["e"]
-            if e.get("k") == "assign" and e["l"].get("k") == "var" and e["l"]["id"] == cid:
-                addends.append((e["op"], canon(e["r"], sc), tuple(guards), e.get("line")))
-            elif e.get("k") == "call":
-                for idx, a in enumerate(e.get("args", [])):
-                    if isinstance(a, dict) and a.get("k") == "var" and a["id"] == cid:
-                        addends.append(("byref", callee(e).get("name"), tuple(guards), e.get("line"), idx, callee(e).get("fid")))
-        elif k in ("for", "rfor"):
-            for n in walk(s):
-                if n.get("k") == "assign" and n["l"].get("k") == "var" and n["l"]["id"] == cid:
-                    addends.append(("loop", canon(n["r"], sc), tuple(guards), n.get("line")))
-    rec(f["body"], [])
+    if ctx is None:
+        ctx = evalctx.context(F, Effects(F), cls)
+    c2 = dict(ctx, void="VoidWaypointsCost" in f["full"])
+    V, npaths = evalrules.analyse_cached(F, cls, f, c2, full=(first or chk.tier == "thorough"))
     where = loc(f)
-    ok0 = lit_zero(decl.get("init"))
-    chk.ob("C08-R1", "%s%s cost starts at 0" % (cls, inst), ok0, loc(f, decl), pp(decl.get("init")), construct="%s/cost%s/init" % (cls, inst))
-    want = [("+=", "$p2[WS.cache_times,WS.user_gdT_buffer]", ()),
-            ("byref", "calculateIntegralCost", ())]
-    if not void:
-        want.append(("+=", "$p3[WS.cache_waypoints,WS.discrete_grad_q_buffer]", ()))
-    want.append(("+=", preds.cbin("*", "this.rho_energy_", "WS.spline.getEnergy()"), ("(this.rho_energy_ > 0)",)))
-    got = [(a[0], a[1], a[2]) for a in addends]
-    gotn = [(a, b.replace("(0 < this.rho_energy_)", "(this.rho_energy_ > 0)"), tuple(x.replace("(0 < this.rho_energy_)", "(this.rho_energy_ > 0)") for x in c)) for a, b, c in got]
-    for w in want:
-        chk.ob("C08-R1", "%s%s addend: %s" % (cls, inst, w[1][:60]), gotn.count(w) == 1, where, "cost updates found: %s" % gotn, construct="%s/cost%s/%s" % (cls, inst, w[1][:40]))
-    extra = [g for g in gotn if g not in want]
-    chk.ob("C08-R1", "%s%s no other term is added to the cost" % (cls, inst), not extra, where, str(extra), construct="%s/cost%s/extra" % (cls, inst))
+    for rid, text in (("cost", "returned cost = time cost + quadrature + waypoint cost + rho * energy (rho > 0), nothing else"),
+                      ("time-buffer", "the time cost is evaluated on the decoded durations, after the spline update"),
+                      ("wp-buffer", "the waypoint cost is evaluated on the decoded waypoints"),
+                      ("energy-source", "the energy is the workspace spline's, fetched once when the weight is positive"),
+                      ("update-once", "all terms refer to the one spline built from this decision vector")):
+        okv, detv = V.v[rid]
+        chk.ob("C08-R1", "%s%s %s" % (cls, inst, text), okv, where, detv or "%d paths" % npaths, construct="%s/cost%s/%s" % (cls, inst, rid))
     # the by-reference accumulation inside the integral routine: cost += segment_costs[i] for all i, serially
-    byref = [a for a in addends if a[0] == "byref"]
-    if byref:
-        g = F.by_fid.get(byref[0][5])
-        if g is not None:
-            info = integral_summary(F, cls, g)
-            Lseg, Lk, Lstart, Lcost, Lsuffix = find_loops(info)
-            cost_name = info["params"][byref[0][4]]
-            n = sp.Symbol("num_segments_", integer=True, positive=True)
-            ok = Lcost is not None
-            if ok:
-                e = [x for x in Lcost.effects if x.target == "$" + cost_name]
-                iv = Lcost.var
-                ok = len(e) == 1 and e[0].op == "+=" and len(e[0].delta.atoms(sp.Indexed)) == 1 and str(list(e[0].delta.atoms(sp.Indexed))[0].base).split("#")[0].endswith("segment_costs") \
-                    and sym.is_zero(list(e[0].delta.atoms(sp.Indexed))[0].indices[0] - iv) and sym.is_zero(e[0].delta - list(e[0].delta.atoms(sp.Indexed))[0]) and Lcost.lo == 0 and sym.is_zero(Lcost.hi - n)
-                others = [x for L in info["I"].loops for x in L.effects if x.target == "$" + cost_name and L is not Lcost]
-                ok = ok and not others and not [x for x in info["I"].effects if x.target == "$" + cost_name]
-            chk.ob("C08-R1", "%s%s the integral routine adds exactly the sum of all segment costs to the cost" % (cls, inst), ok, loc(g), "", construct="%s/cost%s/segment-sum" % (cls, inst))
+    g = next((h for h in F.funcs(cls, "calculateIntegralCost") if any(c_.get("fid") == h["fid"] for c_, _ in F.callees(f))), None)
+    if g is None:
+        gs = [h for c_, h in F.callees(f) if h.get("cls") == cls and len(h["params"]) >= 4 and any(p_["ty"].get("c") == "double" and p_["ty"].get("ref") for p_ in h["params"])]
+        g = gs[0] if gs else None
+    if g is None:
+        raise Broken("%s%s: the quadrature routine called by evaluate() was not identified" % (cls, inst))
+    info = integral_summary(F, cls, g)
+    Lseg, Lk, Lstart, Lcost, Lsuffix = find_loops(info)
+    cidx = next(k_ for k_, p_ in enumerate(g["params"]) if p_["ty"].get("c") == "double" and p_["ty"].get("ref") and not p_["ty"].get("const"))
+    cost_name = info["params"][cidx]
+    n = sp.Symbol("num_segments_", integer=True, positive=True)
+    ok = Lcost is not None
+    if ok:
+        e = [x for x in Lcost.effects if x.target == "$" + cost_name]
+        iv = Lcost.var
+        ok = len(e) == 1 and e[0].op == "+=" and len(e[0].delta.atoms(sp.Indexed)) == 1 and str(list(e[0].delta.atoms(sp.Indexed))[0].base).split("#")[0].endswith("segment_costs") \
+            and sym.is_zero(list(e[0].delta.atoms(sp.Indexed))[0].indices[0] - iv) and sym.is_zero(e[0].delta - list(e[0].delta.atoms(sp.Indexed))[0]) and Lcost.lo == 0 and sym.is_zero(Lcost.hi - n)
+        others = [x for L in info["I"].loops for x in L.effects if x.target == "$" + cost_name and L is not Lcost]
+        ok = ok and not others and not [x for x in info["I"].effects if x.target == "$" + cost_name]
+    else:
+        # the same sum written with std::accumulate over [begin, begin + N)
+        fin = info["env"].get(g["params"][cidx]["id"])
+        ini = sp.Symbol(cost_name, real=True)
+        d_ = sp.expand(fin - ini) if isinstance(fin, sp.Basic) else None
+        ok = (d_ is not None and d_.func == sp.Function("rangesum") and str(d_.args[0]).split("#")[0].endswith("segment_costs") and sym.is_zero(d_.args[1]) and sym.is_zero(d_.args[2] - n)
+              and not [x for L in info["I"].loops for x in L.effects if x.target == "$" + cost_name])
+    chk.ob("C08-R1", "%s%s the integral routine adds exactly the sum of all segment costs to the cost" % (cls, inst), ok, loc(g), "", construct="%s/cost%s/segment-sum" % (cls, inst))
 
 
 def lit_zero(e):
